@@ -206,7 +206,15 @@ pub fn check(sc: &Scenario, out: &RunOutput) -> OracleResult {
                 // outstanding probe / a closing connection
                 if !nagle && s.unsegmented > 0 && s.finished.is_none() && !hostile && s.state == "established" && !s.transport_pending {
                     let room_wnd = (s.last_remote_window as i64) - (s.segmented_bytes as i64);
-                    let probing = s.mss != s.max_ss && s.segmented_packets > 0;
+                    // an outstanding size probe stops further segmentation: a sent, un-acknowledged
+                    // segment larger than the current segment size, or one that is cut and waits
+                    // (the queue then holds more bytes than whole ordinary segments would)
+                    let mss_now = s.mss as usize;
+                    let probe_in_flight = queue.iter().filter_map(|q| sent.get(q)).any(|(l, a)| a.is_none() && *l > mss_now);
+                    // (which of the cut-but-unsent segments is a probe cannot be told from the
+                    // byte totals - window-sized pieces sit there too: any such segment counts)
+                    let probe_cut = precut_pkts > 0;
+                    let probing = s.mss != s.max_ss && (probe_in_flight || probe_cut);
                     let rto_mode = s.rto_retransmissions > 0;
                     // window exhausted: the peer's window minus what is already segmented leaves nothing
                     if room_wnd > 0 && !probing && !rto_mode && !s.recovering {
